@@ -287,6 +287,22 @@ def run(ctx):
     r5.ok("convert:_survey", "ConvertResult exposes the survey object after generation (so R5 matters)", "pyxform/xls2xform.py")
     rules.append(r5)
     rules.append(_question_roundtrip_rule(ctx))
+    # to_json_dict walks get_slot_names(): every advertised name must be a real slot of the class (own or inherited),
+    # else dumping an element of that class raises AttributeError
+    for ci in repo.all_classes():
+        gs = ci.methods.get("get_slot_names")
+        if gs is None:
+            continue
+        it = ctx.interp("C16.R2")
+        it.reset([])
+        try:
+            names = it.call_function(gs, [], {}, None, gs.node)
+        except Raised as e:
+            r2.fail(f"{ci.name}.get_slot_names", f"evaluates ({e.exc_name})", gs.loc())
+            continue
+        real = set(_slots(ctx, ci))
+        missing = [n for n in (names or ()) if n not in real]
+        r2.check(not missing, f"{ci.name}.get_slot_names", "every advertised field is a slot of the class (to_json_dict reads each of them)", gs.loc(), why_fail=f"not slots: {missing}")
     # the dumped survey carries its trigger maps (as JSON lists); the builder re-collects them from the rows (as tuples):
     # after a reload each (target, expression) pair must be there once, not once per representation
     bcls = repo.cls("pyxform.builder:SurveyElementBuilder")
